@@ -191,6 +191,267 @@ def gen_build_cond(rng, nnodes):
     return ops, virt
 
 
+# ---------------------------------------------------------------------------------------------------------------------------
+# [nearly isometric tensors]  "all tensors" includes tensors that are ALMOST isometries already: product states whose local
+# vectors are normalised to a few digits only (amplitudes typed with 4-7 decimals, data that went through float32), tensors
+# that are an isometry w.r.t. one virtual leg times (1 + eps) / (1 + eps.D) / (1 + eps.G) with eps = 10**-u, u in [4, 14], and
+# canonical networks whose tensors were rescaled by a factor close to 1 and are canonicalised again. The statement demands
+# an isometry toward the centre (1e-12) afterwards whatever the input was.
+def near_plan(rng, shape, virt):
+    axis = rng.choice(list(virt)) if virt else (rng.randrange(len(shape)) if shape else None)
+    return {"struct": "near", "axis": axis, "u": rng.uniform(4.0, 14.0), "kind": rng.choice(("scalar", "scalar", "diag", "full", "exact")),
+            "sign": rng.choice((-1.0, 1.0)), "real": rng.random() < 0.25, "seed": rng.randrange(2 ** 31), "exp": 0.0, "logk": 0.0}
+
+
+def digits_plan(rng):
+    return {"struct": "digits", "digits": rng.choice((4, 5, 5, 6, 7, "f32", "f32", 16)), "real": rng.random() < 0.25, "seed": rng.randrange(2 ** 31),
+            "axis": None, "exp": 0.0, "logk": 0.0}
+
+
+def near_tensor(shape, plan):
+    shape = tuple(int(d) for d in shape)
+    rs = np.random.RandomState(plan["seed"])
+    real = plan["real"]
+
+    def gauss(*sh):
+        g = rs.standard_normal(sh)
+        return g if real else g + 1j * rs.standard_normal(sh)
+    if plan["struct"] == "digits":
+        v = gauss(*shape)
+        nv = float(np.linalg.norm(v))
+        v = v / nv if nv else v
+        if plan["digits"] == "f32":
+            v = v.astype(np.float32 if real else np.complex64).astype(float if real else complex)
+        else:
+            v = np.round(v, plan["digits"])
+        return np.ascontiguousarray(v)
+    a = plan["axis"]
+    if a is None or not shape:
+        return gauss(*shape)
+    cols = shape[a]
+    rows = int(np.prod(shape)) // cols
+    if rows < cols:
+        return gauss(*shape)           # no isometry out of a smaller space
+    q, _ = np.linalg.qr(gauss(rows, cols))
+    eps = plan["sign"] * 10.0 ** (-plan["u"])
+    kind = plan["kind"]
+    if kind == "scalar":
+        t = (1.0 + eps) * np.eye(cols)
+    elif kind == "diag":
+        t = np.diag(1.0 + eps * rs.uniform(-1.0, 1.0, cols))
+    elif kind == "full":
+        t = np.eye(cols) + eps * gauss(cols, cols) / np.sqrt(cols)
+    else:
+        t = np.eye(cols)
+    m = q @ t
+    rest = shape[:a] + shape[a + 1:]
+    return np.ascontiguousarray(np.moveaxis(m.reshape(rest + (cols,)), -1, a))
+
+
+def _ttn_diff(a, b):
+    """None if the two networks are indistinguishable (structure, leg permutations, stored arrays bit for bit, recorded centre)"""
+    if snapshot(a) != snapshot(b):
+        return "structure / leg bookkeeping differs"
+    if a.orthogonality_center_id != b.orthogonality_center_id:
+        return f"recorded centre {a.orthogonality_center_id} instead of {b.orthogonality_center_id}"
+    for k, v in b._tensors.data.items():
+        w = a._tensors.data[k]
+        if w.shape != v.shape or w.dtype != v.dtype or not np.array_equal(w, v):
+            return f"stored tensor of {k} differs"
+    return None
+
+
+class R7Driver(CondDriver):
+    """CondDriver + (1) plans of the nearly-isometric family, (2) chain classes: a build op may be executed through
+    attach_node_right_end / attach_node_left_end (`via`) or a whole window through from_tensor_list (`from_list`), (3) a call that
+    raises: the caller KEEPS ITS OBJECT (not the backup); what the rejected call did to it is recorded in `damage`"""
+    via = None
+    damage = None
+
+    def _rand(self, shape):
+        pl = self.plan
+        if pl is not None and pl.get("struct") in ("near", "digits"):
+            self.plan = None
+            return near_tensor(shape, pl)
+        if pl is not None and pl.get("struct") == "rescale":
+            self.plan = None
+            return np.array(copy.deepcopy(self.ttn).tensors[pl["node"]]) * pl["factor"]
+        return CondDriver._rand(self, shape)
+
+    def apply(self, op):
+        mine = self.ttn
+        self.damage = None
+        ok, err = Driver.apply(self, op)
+        self.via = None
+        if not ok:
+            # Driver.apply put the deep copy taken before the call into self.ttn: it is the reference for "left as it was"
+            self.damage = _ttn_diff(mine, self.ttn)
+            self.ttn = mine
+        return ok, err
+
+    def _apply(self, op):
+        v = self.via
+        if op[0] == "add_child" and v in ("right", "left", "left_final"):
+            x = self._rand(tuple(op[2]))
+            if v == "right":
+                self.ttn.attach_node_right_end(wmodel.Node(identifier=op[1]), x)
+            else:
+                self.ttn.attach_node_left_end(wmodel.Node(identifier=op[1]), x, final=(v == "left_final"))
+            self.atoms.append(x)
+            return
+        Driver._apply(self, op)
+
+    def from_list(self, cls, ops, sites, prefix, root_site):
+        """cls.from_tensor_list on fresh tensors; `ops` are the add_root / add_child calls the constructor is expected to be equivalent
+        to, in its order (`sites`: their positions in the list). Returns one (snapshot, raw tensors) record per node added to the
+        RETURNED object (the base-class entry points are observed while the constructor runs)."""
+        tensors = [None] * sum(1 for o in ops if o[0] != "access")
+        xs = []
+        for o, s in zip(ops, sites):
+            if o[0] == "access":
+                continue
+            x = self._rand(tuple(o[2]))
+            tensors[s] = x
+            xs.append(x)
+        base = wmodel.TreeTensorNetwork
+        recs = []
+        orig = {nm: base.__dict__[nm] for nm in ("add_root", "add_child_to_parent")}
+
+        def wrap(f):
+            def g(self_, *a, **kw):
+                pre = (snapshot(self_), {k: np.array(v) for k, v in self_._tensors.data.items()})
+                out = f(self_, *a, **kw)
+                recs.append((self_, pre, (snapshot(self_), {k: np.array(v) for k, v in self_._tensors.data.items()})))
+                return out
+            return g
+        for nm, f in orig.items():
+            setattr(base, nm, wrap(f))
+        try:
+            obj = cls.from_tensor_list(tensors, node_prefix=prefix, root_site=root_site)
+        finally:
+            for nm, f in orig.items():
+                setattr(base, nm, f)
+        self.ttn = obj
+        self.atoms += xs
+        calls = [(pre, post) for (o_, pre, post) in recs if o_ is obj]
+        if len(calls) != len(xs):
+            return None
+        out, j = [], 0
+        for o in ops:
+            if o[0] == "access":
+                out.append(calls[j][0])      # the state the next add call started from
+            else:
+                out.append(calls[j][1])
+                j += 1
+        return out
+
+
+def gen_build_chain(rng, n, nphys, dim_choices):
+    """a chain of n sites held by a MatrixProductState (nphys = 1) / MatrixProductOperator (nphys = 2): a window of k0 sites around the
+    root site through `from_tensor_list` (k0 = 0: add_root only), the other sites one at a time at the left / right end, through
+    attach_node_left_end / attach_node_right_end (while that side was built with them only) or through the generic inherited
+    add_child_to_parent with the legs handed over in a random order. Returns the equivalent add_root / add_child ops, the way every op
+    is executed, and {"nwin", "root_site", "prefix", "sites", "late_from"} (the ops from late_from on are performed later; an attach_node_* call at the root is preceded by an
+    `access` op of the root, because the method reads `self.root`), between the
+    canonical-form operations)."""
+    r = rng.randrange(n)
+    bond = [rng.choice(dim_choices) for _ in range(max(0, n - 1))]
+    phys = [rng.choice(dim_choices) for _ in range(n)]
+    prefix = rng.choice(("site", "site", "n", "s", "site1", "q_"))
+    k0 = min(n, rng.choice((0, 0, 1, 2, 3, 4, n)))
+    a = rng.randrange(max(0, r - k0 + 1), min(r, n - k0) + 1) if k0 else 0
+    b = a + k0 - 1
+    plist = ["p", "q"][:nphys]
+
+    def name(i):
+        return prefix + str(i - a)
+
+    def outer(i):
+        return i > 0 if i < r else i < n - 1
+
+    def dim(i, lab):
+        if lab in ("p", "q"):
+            return phys[i]
+        if lab == "L":
+            return bond[i - 1]
+        if lab == "R":
+            return bond[i]
+        left = i < r
+        if lab == "P":
+            return bond[i] if left else bond[i - 1]
+        return bond[i - 1] if left else bond[i]          # "O"
+    cur = {}
+    nch = {i: 0 for i in range(n)}
+    ops, vias, sites = [], [], []
+    root = (["L"] if r > 0 else []) + (["R"] if r < n - 1 else []) + plist
+    if k0 >= 2 and r == a and r > 0:
+        root = ["R", "L"] + plist        # first tensor of the list: [right leg, further legs ...]
+    shuffled = k0 == 0 and rng.random() < 0.3
+    if shuffled:
+        rng.shuffle(root)
+    cur[r] = list(root)
+    ops.append(["add_root", name(r), [dim(r, l) for l in root]])
+    vias.append("ftl" if k0 else None)
+    sites.append(r - a)
+    reg = {"L": not shuffled, "R": (not shuffled) and r > 0}
+
+    def add(i, via):
+        left = i < r
+        p = i + 1 if left else i - 1
+        rest = (["O"] if outer(i) else []) + plist
+        if via == "left":
+            labels = ["O", "P"] + plist
+        elif via in ("right", "left_final", "ftl0"):
+            labels = ["P"] + rest
+        else:
+            labels = ["P"] + rest
+            rng.shuffle(labels)
+        x = ("L" if left else "R") if p == r else "O"
+        pleg = cur[p].index(x)
+        if p == r and via in ("right", "left", "left_final"):
+            # attach_node_* reads `self.root`, which applies the pending lazy transposition of the root tensor first
+            ops.append(["access", name(r)])
+            vias.append("access")
+            sites.append(None)
+        ops.append(["add_child", name(i), [dim(i, l) for l in labels], labels.index("P"), name(p), pleg])
+        vias.append(via)
+        sites.append(i - a)
+        cur[p].pop(pleg)
+        cur[p].insert((0 if p == r else 1) + nch[p], "c")
+        nch[p] += 1
+        cur[i] = ["P"] + [l for l in labels if l != "P"]
+    if k0:
+        if r == a:
+            for i in range(a + 1, b + 1):
+                add(i, "ftl0" if i == a + 1 else "right")
+            reg["R"] = reg["R"] or k0 >= 2
+        else:
+            for i in range(r - 1, a - 1, -1):
+                add(i, "left_final" if i == a else "left")
+            for i in range(r + 1, b + 1):
+                add(i, "right")
+    nwin = len(ops) if k0 else 0
+    lo, hi = (a, b) if k0 else (r, r)
+    while lo > 0 or hi < n - 1:
+        side = rng.choice([s for s, okk in (("L", lo > 0), ("R", hi < n - 1)) if okk])
+        i = lo - 1 if side == "L" else hi + 1
+        if reg[side] and rng.random() < 0.65:
+            via = "right" if side == "R" else ("left" if (outer(i) and rng.random() < 0.5) else "left_final")
+        else:
+            via = "generic"
+            reg[side] = False
+        add(i, via)
+        lo, hi = min(lo, i), max(hi, i)
+    adds = [k for k, o in enumerate(ops) if o[0] == "add_child" and k >= max(nwin, 1)]
+    nlate = min(rng.choice((0, 0, 0, 1, 2)), len(adds))
+    start = len(ops)
+    if nlate:
+        start = adds[-nlate]
+        if ops[start - 1][0] == "access":
+            start -= 1
+    return ops, vias, {"nwin": nwin, "root_site": r - a, "prefix": prefix, "sites": sites, "late_from": start}
+
+
 class C03(Prop):
     id = "C03"
     rule = ("random trees (1-7 nodes; FULL mode limited to <=4 nodes with dims<=2 to bound growth) built with shuffled legs, bond/physical "
@@ -207,6 +468,21 @@ class C03(Prop):
             "the same plans; same operations (no structural edits); oracles there additionally RELATIVE to the scale of the reference (state: largest "
             "deviation <= 1e-9 x largest entry of the reference, zero state stays zero; norms: relative 1e-9). In all families every non-centre tensor "
             "has to be an isometry (KEEP: 0/1 projector) toward the centre up to 1e-12 (Householder QR: ~1e-15 whatever the conditioning). "
+            "Plus 20% additional cases of CHAIN CLASSES (2-7 sites): the network is a MatrixProductState (two thirds) / MatrixProductOperator (two open "
+            "legs per site), root at a random site, a window of 0-n sites around it built by from_tensor_list (random node prefix, also prefixes that "
+            "make identifiers prefixes of each other), the other sites attached one at a time at either end through attach_node_left_end (both "
+            "`final` conventions) / attach_node_right_end or through the generic inherited add_child_to_parent with the legs in a random order (once "
+            "a side was extended generically it stays generic; 30% of the constructor-free builds hand the root's legs over in a random order); "
+            "0-2 of the sites are attached only LATER, between the canonical-form operations (a different state from there on; the next operation is "
+            "a full canonical form); every build call is tied to the model as the add_root / add_child (+ access of the root, which attach_node_* "
+            "performs) it has to be equivalent to. Plus 25% additional cases of NEARLY ISOMETRIC tensors: (iso) tensors = isometry w.r.t. a virtual "
+            "leg times 1+eps / 1+eps.D / 1+eps.G / exactly 1, eps = +-10**-u, u uniform in [4,14], mixed with ordinary tensors; (product) all bonds 1, "
+            "local vectors normalised and rounded to 4-7 decimals / passed through float32 / exact; (rescale) canonical form, then some or all "
+            "tensors times 1 +- 10**-u (u in [5,11]) through replace_tensor, then canonical form again. In both new families half of the cases "
+            "contain 1-2 REJECTED calls (a centre move while no centre is recorded as the first operation; canonical_form / ensure_orth_center "
+            "naming a node that does not exist: 'ghost', the empty string, an existing identifier with one character less / more): the library "
+            "has to raise, the caller keeps its object (not a backup), which has to be bit for bit as it was (structure, leg bookkeeping, arrays, "
+            "recorded centre), and the sequence continues on it. "
             "non-trivial = at least 2 nodes; distinct by seed content")
     clauses = [
         ("F", "the QR leg specifications built for a node and any neighbour partition the node's legs; REDUCED bond <= both sides; KEEP bond = the old bond dimension (Props C03_*)"),
@@ -231,6 +507,11 @@ class C03(Prop):
               "The model treats the tensor of every node as a separate value; that nodes which were handed one and the same ndarray object do not "
               "influence each other (no write into a buffer the caller or another node still references) is covered by the shared-array cases of "
               "the dense oracle only"),
+        ("V", "class-specific objects (MatrixProductState / MatrixProductOperator built by from_tensor_list, attach_node_* and the generic API, "
+              "extended between the operations) satisfy the same statement: the store model knows no classes; the build calls are tied to the "
+              "generic add_root / add_child they have to be equivalent to, everything after that is the same tie and the same dense / isometry / "
+              "norm oracle. Rejected calls: the model's step returns an error and keeps the state (crun_obs), the implementation has to raise and "
+              "leave the caller's object unchanged bit for bit (compared with a deep copy taken before the call)"),
     ]
     trusted_base = ["LAPACK QR: Q^H Q = 1 (validated numerically at every node)",
                     "LAPACK QR kernel contract Q R = A over the new bond, incl. zero-padded KEEP factors (premise def_holds of the C03_*_state_unchanged "
@@ -257,6 +538,19 @@ class C03(Prop):
         nc = ctx.scale(50, 800) * budget_scale
         cases += [{"seed": rng.randrange(10 ** 9), "nnodes": rng.choice([1, 2, 2, 3, 3, 4, 4, 5]), "nops": rng.randrange(1, 6),
                    "lowrank": False, "cond": True} for j in range(nc)]
+        # [chain classes] ADDITIONAL cases: the network is a MatrixProductState / MatrixProductOperator (every third one), built by
+        # from_tensor_list (a window around a random root site), attach_node_left_end / attach_node_right_end and the generic
+        # add_child_to_parent (legs in a random order), some sites attached only between the canonical-form operations; rejected
+        # calls (centre move without a recorded centre, unknown node) interleaved; see gen_build_chain / R7Driver
+        nk = ctx.scale(18, 300) * budget_scale
+        cases += [{"seed": rng.randrange(10 ** 9), "nnodes": rng.choice([2, 3, 3, 4, 4, 5, 6, 7]), "nops": rng.randrange(1, 6),
+                   "lowrank": False, "chain": "mpo" if j % 3 == 2 else "mps"} for j in range(nk)]
+        # [nearly isometric tensors] ADDITIONAL cases: "iso": tensors = isometry w.r.t. a virtual leg x (1 + 10**-u . something), u in
+        # [4, 14]; "product": all bonds 1, local vectors normalised to 4-7 digits / through float32; "rescale": canonical form, tensors
+        # times a factor 1 +- 10**-u (u in [5, 11]), canonical form again; same rejected calls; see near_plan / near_tensor
+        nr = ctx.scale(24, 400) * budget_scale
+        cases += [{"seed": rng.randrange(10 ** 9), "nnodes": rng.choice([1, 2, 2, 3, 3, 4, 4, 5] if j % 3 != 1 else [2, 3, 4, 5, 6, 7]),
+                   "nops": rng.randrange(1, 6), "lowrank": False, "near": ("iso", "product", "rescale")[j % 3]} for j in range(nr)]
         return cases
 
     def nontrivial(self, case):
@@ -285,6 +579,16 @@ class C03(Prop):
         virt = None
         if cond:
             drv = CondDriver(ttn_cls=TTNS, nprs=np.random.RandomState(case["seed"] % (2 ** 31)))
+        near = case.get("near")           # nearly isometric tensors: "iso" / "product" / "rescale"
+        chain = case.get("chain")         # "mps" / "mpo": the network is a MatrixProductState / MatrixProductOperator
+        r7 = bool(near or chain)
+        cinfo = None
+        late = []
+        late_via = {}
+        if r7:
+            from pytreenet.special_ttn.mps import MatrixProductState, MatrixProductOperator
+            cls = {"mps": MatrixProductState, "mpo": MatrixProductOperator, None: TTNS}[chain]
+            drv = R7Driver(ttn_cls=cls, nprs=np.random.RandomState(case["seed"] % (2 ** 31)))
         small = case["nnodes"] <= 4
         dim_choices = (1, 2, 2) if small else (1, 2, 2, 3)
         if case.get("share") == "uniform":
@@ -293,8 +597,22 @@ class C03(Prop):
             parents = [None] + [rng.randrange(0, i) for i in range(1, nn)]
             bdim, pdim = rng.choice(dim_choices), rng.choice(dim_choices)
             ops = gen_build_on(rng, parents, [[pdim] for _ in range(nn)], {i: bdim for i in range(1, nn)})
-        elif cond:
+        elif cond or near in ("iso", "rescale"):
             ops, virt = gen_build_cond(rng, case["nnodes"])
+        elif near == "product":
+            # all bonds of dimension 1
+            nn = case["nnodes"]
+            parents = [None] + [rng.randrange(0, i) for i in range(1, nn)]
+            ops = gen_build_on(rng, parents, [[_Leg(rng.choice((2, 2, 3, 4)), "o")] for _ in range(nn)], {i: _Leg(1, "b") for i in range(1, nn)})
+            virt = []
+            for o in ops:
+                virt.append([k for k, d in enumerate(o[2]) if d.kind == "b"])
+                o[2] = [int(d) for d in o[2]]
+        elif chain:
+            ops, vias, cinfo = gen_build_chain(rng, case["nnodes"], 2 if chain == "mpo" else 1, dim_choices)
+            lf = cinfo["late_from"]
+            late = [[o, v] for o, v in zip(ops[lf:], vias[lf:])]
+            ops = ops[:lf]
         else:
             ops = gen_build(rng, case["nnodes"], nopen_choices=(1,), dim_choices=dim_choices)
         if case.get("ops"):
@@ -303,9 +621,35 @@ class C03(Prop):
         steps = []
         viol = None
         applied = []
-        for op in ops:
-            if op[0] not in ("add_root", "add_child"):
+        if chain and cinfo["nwin"] and not case.get("ops"):
+            # the window built by the documented constructor from_tensor_list; one step per node it adds
+            nw = cinfo["nwin"]
+            try:
+                recs = drv.from_list(cls, ops[:nw], cinfo["sites"][:nw], cinfo["prefix"], cinfo["root_site"])
+            except Exception as e:  # noqa
+                recs = []
+                viol = f"from_tensor_list raised {type(e).__name__}: {e}"
+            if not viol and recs is None:
+                recs = []
+                viol = "from_tensor_list did not add one node per tensor"
+            for op, (snap_, raws_) in zip(ops[:nw], recs):
+                applied.append(op)
+                steps.append({"ok": True, "err": None, "snap": snap_, "raws": raws_, "centre": None})
+            self._stats[f"chain: window of {sum(1 for o in ops[:nw] if o[0] != 'access')} sites through from_tensor_list"] += 1
+            if viol:
+                return {"ops": applied, "steps": steps, "atoms": drv.atoms, "viol": viol}
+        for op in ops[len(applied):]:
+            if op[0] not in ("add_root", "add_child") and not (chain and op[0] == "access"):
                 break          # explicit case["ops"]: everything after the build goes through the judged loop below
+            if near and virt is not None:
+                vl = virt[len(applied)]
+                drv.plan = digits_plan(prng) if near == "product" else (near_plan(prng, op[2], vl) if (near == "iso" and prng.random() < 0.6) else None)
+                if drv.plan:
+                    self._stats[f"near: tensors built as {drv.plan['struct']}" + (f" ({drv.plan['kind']})" if drv.plan["struct"] == "near" else "")] += 1
+            if chain:
+                drv.via = vias[len(applied)]
+                if op[0] != "access":
+                    self._stats[f"chain: node added through {'add_root' if op[0] == 'add_root' else drv.via}"] += 1
             if cond and virt is not None:
                 drv.plan = cond_plan(prng, op[2], virt[len(applied)])
                 self._cond_stats(op[2], drv.plan, virt[len(applied)])
@@ -351,10 +695,52 @@ class C03(Prop):
                 kind = "move" if (have_centre and rng.random() < 0.6) else "canon"
                 ops = ops + [[kind, c, mode]]
                 have_centre = True
+        if r7 and not case.get("ops"):
+            built = len(applied)
+            cops = ops[built:]
+            mrng = random.Random(case["seed"] + 23)
+            if near == "rescale":
+                # canonical form, then some / all tensors times a factor close to 1 (replace_tensor), then canonical form again
+                u = mrng.uniform(5.0, 11.0)
+                sub = [x for x in ids if mrng.random() < 0.7] or [mrng.choice(ids)]
+                pre = [["canon", mrng.choice(ids), mrng.choice(["reduced", "keep"])]]
+                pre += [["scramble", x, "none", 1.0 + mrng.choice((-1.0, 1.0)) * 10.0 ** (-u)] for x in sub]
+                pre += [["canon", mrng.choice(ids), mrng.choice(["reduced", "keep"])]]
+                cops = pre + cops
+            # [later extension of a chain] sites attached between the canonical-form operations (after the first of them)
+            groups = []
+            for o, v in late:
+                if groups and groups[-1][-1][0] == "access":
+                    groups[-1].append(o)
+                else:
+                    groups.append([o])
+            pos = sorted(mrng.randrange(1, len(cops) + 1) for _ in groups)
+            shift = 0
+            for g, q in zip(groups, pos):
+                cops[q + shift:q + shift] = g
+                shift += len(g)
+            late_via = {o[1]: v for o, v in late if o[0] == "add_child"}
+            # [rejected calls] a call the library has to reject: a centre move while no centre is recorded (only as the very first
+            # operation), any operation naming a node that does not exist. The object has to stay as it was; the sequence goes on
+            if mrng.random() < 0.5:
+                for _ in range(mrng.choice((1, 1, 2))):
+                    q = mrng.randrange(0, len(cops) + 1)
+                    ghost = mrng.choice(("ghost", ids[0] + "0", ids[-1][:-1], ""))
+                    if ghost in ids or ghost in late_via:
+                        ghost = "ghost"
+                    if q == 0 and mrng.random() < 0.5:
+                        cops.insert(0, ["move", mrng.choice(ids), mrng.choice(["reduced", "keep"]), "rej"])
+                    else:
+                        if q > 0 and cops[q - 1][0] == "access":
+                            q -= 1       # never between the access of the root and the attach call it belongs to
+                        # (a centre MOVE to an unknown node is rejected by the library, too, but the model's path search is not
+                        # defined there: not part of the family)
+                        cops.insert(q, [mrng.choice(("canon", "ensure")), ghost, mrng.choice(["reduced", "keep"]), "rej"])
+            ops = ops[:built] + cops
         keep_seen = False
         # structural edits between the canonical-form operations (every third case): a contraction, a split (QR / SVD), an inserted
         # identity or a renaming changes the tree; the next operation is then a full canonical_form on the CURRENT tree
-        edits = (not case.get("ops")) and (not cond) and case.get("edits", case["seed"] % 3 == 0)
+        edits = (not case.get("ops")) and (not cond) and (not r7) and case.get("edits", case["seed"] % 3 == 0)
         erng = random.Random(case["seed"] + 5)
         fresh_ctr = [0]
 
@@ -385,6 +771,52 @@ class C03(Prop):
                         tokens = C02._tokens_after(e, tokens, pre_snap)
                         need_canon = True
                         keep_seen = True     # an edit may leave zero-padded / non-isometric tensors; only the next canon restores the attribute
+            if op[0] == "access":
+                ok, err = drv.apply(op)
+                applied.append(op)
+                t = drv.ttn
+                steps.append({"ok": ok, "err": err, "snap": snapshot(t), "raws": {k: np.array(v) for k, v in t._tensors.data.items()},
+                              "centre": t.orthogonality_center_id})
+                if not ok:
+                    viol = viol or f"{op} raised {err}"
+                continue
+            if op[0] == "add_child":
+                # [later extension of a chain] one more site at an end; a different state from here on, the next operation is a
+                # full canonical form
+                pnn = drv.ttn.nodes[op[4]].nneighbours()
+                drv.via = late_via.get(op[1])
+                ok, err = drv.apply(op)
+                applied.append(op)
+                t = drv.ttn
+                steps.append({"ok": ok, "err": err, "snap": snapshot(t), "raws": {k: np.array(v) for k, v in t._tensors.data.items()},
+                              "centre": t.orthogonality_center_id})
+                self._stats[f"chain: node added LATER through {late_via.get(op[1])}:{'ok' if ok else 'rejected'}"] += 1
+                if not ok:
+                    viol = viol or f"{op} raised {err}"
+                    continue
+                tokens[op[4]].pop(op[5] - pnn)
+                tokens[op[1]] = [(op[1], j) for j in range(t.nodes[op[1]].nopen_legs())]
+                dense0 = dense_by_tokens(t, tokens)
+                need_canon = True
+                keep_seen = True
+                continue
+            if len(op) > 3 and op[3] == "rej":
+                before_c = drv.ttn.orthogonality_center_id
+                ok, err = drv.apply(op)
+                applied.append(op)
+                t = drv.ttn
+                steps.append({"ok": ok, "err": err, "snap": snapshot(t), "raws": {k: np.array(v) for k, v in t._tensors.data.items()},
+                              "centre": t.orthogonality_center_id})
+                self._stats[f"rejected call expected: {op[0]} ({'no centre recorded' if op[1] in t.nodes else 'unknown node'}):{'rejected' if not ok else 'ACCEPTED'}"] += 1
+                if viol:
+                    continue
+                if ok:
+                    viol = f"{op} was accepted although {'no centre is recorded' if op[1] in t.nodes else 'the node does not exist'}"
+                elif drv.damage:
+                    viol = f"{op} raised ({err}) but did not leave the network as it was: {drv.damage}"
+                elif t.orthogonality_center_id != before_c:
+                    viol = f"{op} raised ({err}) but the recorded centre changed"
+                continue
             if op[0] != "scramble":
                 cur = list(drv.ttn.nodes)
                 if need_canon:
@@ -404,6 +836,15 @@ class C03(Prop):
                 nd_ = drv.ttn.nodes[op[1]]
                 drv.plan = cond_plan(prng, list(nd_.shape), list(range(nd_.nneighbours())))
                 self._cond_stats(list(nd_.shape), drv.plan, list(range(nd_.nneighbours())))
+            if near and op[0] == "scramble":
+                nd_ = drv.ttn.nodes[op[1]]
+                if len(op) > 3:
+                    drv.plan = {"struct": "rescale", "node": op[1], "factor": op[3]}
+                    self._stats["near: tensors rescaled by a factor close to 1"] += 1
+                elif near == "product":
+                    drv.plan = digits_plan(prng)
+                elif near == "iso":
+                    drv.plan = near_plan(prng, list(nd_.shape), list(range(nd_.nneighbours())))
             ok, err = drv.apply(op)
             drv.plan = None
             if op[0] == "scramble":
@@ -514,7 +955,13 @@ class C03(Prop):
         # is well-formed when the first canonical_form starts) and the temporary identifier is fresh
         hyp = []
         for ob, idm in zip(obs, idms):
-            build = [o for o in ob["ops"] if o[0] in ("add_root", "add_child")]
+            build = []
+            for o in ob["ops"]:
+                if o[0] == "access":
+                    continue        # no effect on the store's well-formedness; (chain classes) a build may contain accesses of the root
+                if o[0] not in ("add_root", "add_child"):
+                    break           # the store the first canonical-form operation starts from
+                build.append(o)
             body = "[" + "; ".join("(" + wmodel.coq_op(o, idm) + ")" for o in build) + "]"
             rid = len(idm.r) + 1000
             hyp.append(f"(ops_okb empty_store {body} && wfb (fst (run empty_store {body})) && wfsb (fst (run empty_store {body})) && negb (amem {rid} (nodes (fst (run empty_store {body})))))%bool")
